@@ -273,8 +273,38 @@ func (w *epWalk) ret(r *ssa.Return, s *pstate) {
 	case freshError(R):
 		w.forms["H2-fresh"] = true
 	default:
+		// the error value of ANOTHER call that ran before the failing one (typically the outer variable of a shadowed
+		// `err :=`): whatever it holds, it is not the resource error of this path
+		if oc := errorOrigin(R); oc != nil && w.e != nil {
+			if ec := errorOrigin(w.e); ec != nil && oc != ec && (oc.Block() != ec.Block() && oc.Block().Dominates(ec.Block()) || oc.Block() == ec.Block() && instrIndex(oc) < instrIndex(ec)) {
+				w.bad = append(w.bad, fmt.Sprintf("returns at %s the error value of the earlier call at %s, not the resource error of this path (a shadowed error variable?): the failure is reported only if that other value happens to be non-nil", pos, w.u.Pos(oc.Pos())))
+				return
+			}
+		}
 		w.und = append(w.und, fmt.Sprintf("return at %s yields %s (%T), not recognisably the error", pos, R.Name(), R))
 	}
+}
+
+// errorOrigin: the call whose error result v is (directly or as a tuple component).
+func errorOrigin(v ssa.Value) *ssa.Call {
+	switch x := v.(type) {
+	case *ssa.Call:
+		return x
+	case *ssa.Extract:
+		if c, ok := x.Tuple.(*ssa.Call); ok {
+			return c
+		}
+	}
+	return nil
+}
+
+func instrIndex(ins ssa.Instruction) int {
+	for i, x := range ins.Block().Instrs {
+		if x == ins {
+			return i
+		}
+	}
+	return -1
 }
 
 // checkErrorHandled decides one EP obligation.
